@@ -124,7 +124,7 @@ def dyn_block(bw, rng, toks, final, maxdepth=15, rle="mixed", fault=None, single
     # pad with extra used symbols so that deep codes are reachable
     want = max(len(used_ll), 2)
     if maxdepth >= 13:
-        extra = [s for s in range(286) if s not in used_ll]
+        extra = [s for s in range(286) if s not in used_ll and not (fault == "rep16_first" and s < 3)]
         rng.shuffle(extra); used_ll = sorted(used_ll + extra[:max(0, min(len(extra), maxdepth + 4 - len(used_ll)))])
     if len(used_ll) == 1: used_ll = sorted(set(used_ll + [0 if 0 not in used_ll else 1]))
     lens = random_complete_lengths(rng, len(used_ll), maxdepth, skew=0.7 if maxdepth >= 13 else 0.3)
@@ -187,7 +187,11 @@ def dyn_block(bw, rng, toks, final, maxdepth=15, rle="mixed", fault=None, single
     seq = ll_len[:hlit] + ([0] * (hlit - 286) if hlit > 286 else []) + d_len[:hdist]
     seq = (ll_len + [0, 0])[:hlit] + d_len[:hdist]
     rl = rle_lengths(rng, seq if fault != "rep_past_end" else seq[:-1], rle)
-    if fault == "rep16_first": rl = [(16, 0, 2)] + rl
+    if fault == "rep16_first":
+        # "copy the previous length" as the very first code-length symbol: there is no previous length.  When the sequence starts with three
+        # zeros the repeat REPLACES them (the count of lengths stays right, so this is the only thing wrong with the block); otherwise it is
+        # put in front (one fault more: three lengths too many)
+        rl = [(16, 0, 2)] + (rle_lengths(rng, seq[3:], rle) if seq[:3] == [0, 0, 0] else rl)
     if fault == "rep_past_end": rl = rl + [(18, 127, 7)]      # 138 zeros where only one length is still missing
     cl_used = sorted(set(x[0] for x in rl))
     if len(cl_used) == 1: cl_used = sorted(set(cl_used + [0 if cl_used[0] != 0 else 1]))
